@@ -167,13 +167,14 @@ class Exporter(object):
         binds = []     # (typed names, untyped names, local reads)
         for a in self.graph.index:
             reads = set()
+            new = self.an.last_new.get(id(a), set())      # typed at the last visit of the node
             if isinstance(a, ast.arguments):
-                typed = [x.arg for x in a.args if self.prog.num[id(x)] in self.an.types]
-                untyped = [x.arg for x in a.args if self.prog.num[id(x)] not in self.an.types]
+                typed = [x.arg for x in a.args if x.arg in new]
+                untyped = [x.arg for x in a.args if x.arg not in new]
             elif isinstance(a, ast.Assign):
                 st = [n for t in a.targets for n in ast.walk(t) if isinstance(n, ast.Name)]
-                typed = [n.id for n in st if self.prog.num[id(n)] in self.an.types]
-                untyped = [n.id for n in st if self.prog.num[id(n)] not in self.an.types]
+                typed = [n.id for n in st if n.id in new]
+                untyped = [n.id for n in st if n.id not in new]
                 reads = set(n.id for n in ast.walk(a.value) if isinstance(n, ast.Name))
             elif isinstance(a, ast.AugAssign):
                 typed, untyped = [], [a.target.id]
